@@ -105,7 +105,36 @@ def main() -> None:
             texts.append(print_prog(Gen(rr, Cfg(max_depth=2, max_block=3, max_routines=2)).program()))
     bad_texts = ["def 0 {\n    jump @nowhere;\n}\n", "def 0 {", "def 0 {\n    ~nope();\n}\n", "macro a() {\n    ~a();\n}\ndef 0 {\n    end;\n}\n"]
     ssb_cases, _ = gen_cases(run.seed, 60 if q else 500, 40 if q else 300, 60 if q else 500, "C11")
-    pool_calls: list[list] = [["compile", t] for t in texts] + [["compile", t] for t in bad_texts] + \
+    # inputs that make a call fail midway: compiled routine sets with a stray case op put into a loop body (the decompiler
+    # gives up while a loop is open), and routine sets without any well-formedness filter
+    from gen_ssb import random_routines, default_infos
+    hostile: list[list] = []
+    loopy = [c for c in ssb_cases if any(o["code"] == "Jump" and o["params"][0][1] < o["off"] for rt in c.ops for o in rt)]
+    for j in range(40 if q else 300):
+        rr = random.Random(f"C11-{run.seed}-hostile{j}")
+        if loopy and rr.random() < 0.7:
+            c = rr.choice(loopy)
+            ops = copy.deepcopy(c.ops)
+            backs = [(ri, oi) for ri, rt in enumerate(ops) for oi, o in enumerate(rt) if o["code"] == "Jump" and o["params"][0][1] < o["off"]]
+            ri, oi = rr.choice(backs)
+            tgt = ops[ri][oi]["params"][0][1]
+            body = [k for k, o in enumerate(ops[ri]) if tgt <= o["off"] < ops[ri][oi]["off"] and o["code"] not in
+                    ("Jump", "Call") and not o["code"].startswith(("Branch", "Case", "Switch", "Default"))]
+            if not body:
+                continue
+            k = rr.choice(body)
+            ops[ri][k] = {"off": ops[ri][k]["off"], "code": rr.choice(["CaseText", "DefaultText"]), "params": [["i", 1], ["s", "hi"]]}
+            hostile.append(["decompile", ops, c.infos, c.coros])
+        else:
+            ops = random_routines(rr)
+            infos, coros = default_infos(ops, rr)
+            hostile.append(["decompile", ops, infos, coros])
+    # a file that calls macros which only another file defines (the compiler object may be reused for both)
+    stripped = []
+    for t in texts:
+        if t.lstrip().startswith("macro") and "\ndef " in t:
+            stripped.append(t[t.index("\ndef ") + 1:])
+    pool_calls: list[list] = [["compile", t] for t in stripped] + hostile + [["compile", t] for t in texts] + [["compile", t] for t in bad_texts] + \
         [["decompile", c.ops, c.infos, c.coros] for c in ssb_cases] + [["ssbs", c.ops, c.infos, c.coros] for c in ssb_cases[:40]]
     base = fresh_results(pool_calls)
     key = {json.dumps(c, sort_keys=True): b for c, b in zip(pool_calls, base)}
@@ -121,6 +150,16 @@ def main() -> None:
             if r.random() < 0.3:
                 calls.append(copy.deepcopy(c))   # the same input repeated
         histories.append(calls)
+    # directed histories: macro file then the file that lacks the definitions (and the other way round) on one compiler;
+    # failing decompilations followed by arbitrary flow graphs
+    for t in texts:
+        if t.lstrip().startswith("macro") and "\ndef " in t:
+            rest = t[t.index("\ndef ") + 1:]
+            histories.append([["compile_reuse", t], ["compile_reuse", rest], ["compile_reuse", t]])
+    webs = [c for c in pool_calls if c[0] == "decompile"]
+    for h in range(30 if q else 300):
+        hs = [copy.deepcopy(r.choice(hostile)) for _ in range(r.randint(1, 3))] if hostile else []
+        histories.append(hs + [copy.deepcopy(r.choice(webs)) for _ in range(r.randint(3, 10))])
     outs = run_impl([("checks.c11:run_history", h) for h in histories], chunksize=1)
     for h, out in zip(histories, outs):
         run.case(h, nontrivial=len(h) >= 3)
